@@ -20,7 +20,8 @@ RULE = ("orbit states from the repo's TLEs and the near-earth generator (also ex
         "of the rays are forced to miss the ellipsoid (angles beyond the horizon); correspondence: view vectors, the "
         "intersection quantities (ldotc, lsq, csq, discriminant, distance) and pixel positions, lon/lat/alt of the pixels, "
         "model vs geoloc.py at 1e-9; oracle: every clause of the statement on the implementation, with a watchdog on "
-        "get_lonlatalt; distinct = (state, angles, attitude)")
+        "get_lonlatalt; explicit states exactly above a pole and 1e-9..1e-3 km off the polar axis, nadir and scan angles of "
+        "1e-9..1e-3 rad, pixel altitude within 10 m; distinct = (state, angles, attitude)")
 ASSUMPTIONS = ["float residual 1e-9 of the ellipsoid equation, 0.2 deg nadir deflection, 10 m altitude: measured",
                "the view-vector theorems are about one pixel; array shape handling is covered by the correspondence"]
 TRUSTED = ["model PV.Model.Geoloc (viewVector, intersect) and PV.Model.Look (lonLatAltKm)", "spec PV.Spec.Wgs84"]
@@ -249,6 +250,82 @@ def oracle(ctx):
             ctx.violation("pixel_times", descr, [str(x) for x in tt], [str(x) for x in want], site="ScanGeometry.times")
     # explicit pos/vel pairs through a (line1, line2) tuple is the same path; also check tuple input of compute_pixels
     ctx.note("worst ellipsoid-equation residual = %.3g" % worst_eq)
+    _oracle_polar(ctx)
+
+
+class _FixedState(object):
+    """orbit stand-in with an explicit state: compute_pixels only calls get_position(times, normalize=False)"""
+
+    def __init__(self, pos, vel):
+        self.pos = np.array(pos, dtype=np.float64)
+        self.vel = np.array(vel, dtype=np.float64)
+
+    def get_position(self, times, normalize=False):
+        k = np.asarray(times).size
+        return np.repeat(self.pos.reshape(3, 1), k, axis=1), np.repeat(self.vel.reshape(3, 1), k, axis=1)
+
+
+POLAR_Z = [7000.0, 7200.0, 7178.137]
+POLAR_OFF = [0.0, 1e-9, 1e-7, 1e-6, 1e-5, 1e-4, 1e-3]
+POLAR_ANG = [0.0, 1e-9, -1e-8, 1e-7, -1e-6, 1e-5, -1e-4, 1e-3]
+
+
+def _check_polar_pixels(ctx, pos, vel, fovs, tiso):
+    """pixels of an explicit state on/near the polar axis: hit the ellipsoid, lon/lat/alt terminate, |alt| <= 10 m"""
+    from pyorbital import geoloc
+    fovs = np.array(fovs, dtype=np.float64)
+    k = fovs.shape[1]
+    t = dt.datetime.fromisoformat(tiso)
+    times = np.array([np.datetime64(t)] * k)
+    sg = geoloc.ScanGeometry(fovs, np.zeros(k))
+    with np.errstate(invalid="ignore"):
+        pix = geoloc.compute_pixels(_FixedState(pos, vel), sg, times)
+    case = {"pos": [float(x) for x in pos], "vel": [float(x) for x in vel], "fovs": fovs.tolist(), "utc": tiso}
+    bad = 0
+    worst = 0.0
+    try:
+        with np.errstate(all="ignore"):
+            lla = with_watchdog(20, lambda: geoloc.get_lonlatalt(pix, times))
+    except Timeout:
+        ctx.violation("lonlatalt_hangs", case, "no result within 20 s", "terminates", site="geoloc.get_lonlatalt")
+        return 1, worst
+    for j in range(k):
+        ctx.count("eval_oracle_polar")
+        px = pix[:, j]
+        if np.any(np.isnan(px)):
+            ctx.violation("hit_is_nan", dict(case, index=j), list(px), "a point on the ellipsoid (near-nadir view)", site="geoloc.compute_pixels")
+            bad += 1
+            continue
+        alt = float(lla[2][j])
+        lat = float(lla[1][j])
+        if not (abs(alt) <= 0.010) or not (-90.0 <= lat <= 90.0):
+            ctx.violation("pixel_altitude_polar", dict(case, index=j, pixel=[float(x) for x in px]), {"alt_km": alt, "lat": lat},
+                          "|alt| <= 10 m, lat in [-90, 90]", site="geoloc.get_lonlatalt")
+            bad += 1
+        if not math.isnan(alt):
+            worst = max(worst, abs(alt))
+    return bad, worst
+
+
+def _oracle_polar(ctx):
+    """explicit states exactly above a pole and within 1e-9..1e-3 km of the polar axis; nadir view and small scan angles"""
+    r = ctx.rng
+    worst = 0.0
+    for z in POLAR_Z:
+        for off in POLAR_OFF:
+            for sgn in (1.0, -1.0):
+                az = r.uniform(0, 2 * math.pi)
+                hd = r.uniform(0, 2 * math.pi)
+                pos = [off * math.cos(az), off * math.sin(az), sgn * z]
+                vel = [7.5 * math.cos(hd), 7.5 * math.sin(hd), 0.0]
+                fx = list(POLAR_ANG)
+                fy = [0.0] + [r.choice(POLAR_ANG) for _ in POLAR_ANG[1:]]
+                t = dt.datetime(2000, 1, 1) + dt.timedelta(seconds=r.uniform(0, 30 * 365 * 86400))
+                ctx.distinct(("polar", z, off, sgn))
+                ctx.bump("polar_offset_km", "%g" % off)
+                _, w = _check_polar_pixels(ctx, pos, vel, [fx, fy], t.isoformat())
+                worst = max(worst, w)
+    ctx.note("worst |altitude| of pixels on/near the polar axis = %.3g km" % worst)
 
 
 def match_known(entry, v):
@@ -261,6 +338,10 @@ def replay(ctx, case):
     clauses are reproduced by check.py re-running the recorded seed."""
     from pyorbital import geoloc, orbital
     inp = case.get("input", case)
+    if "pos" in inp and "fovs" in inp:
+        bad, worst = _check_polar_pixels(ctx, inp["pos"], inp["vel"], inp["fovs"], inp["utc"])
+        print("explicit state", inp, "worst |alt| km", worst, "violations", bad)
+        return 1 if bad else 0
     if "line1" not in inp:
         print(inp)
         return 0
